@@ -205,10 +205,23 @@ Proof.
   reflexivity.
 Qed.
 
-Lemma parsers_agree_l : forall g, no_nan_values g -> py_decide g = c_decide g.
+Lemma no_nan_of_any_nan : forall g, any_nan g = false -> no_nan_values g.
 Proof.
-  intros g Hn. unfold py_decide, c_decide. rewrite (flags_eq g Hn). apply agree_flags.
+  intros g H. unfold any_nan in H. cbn [existsb] in H.
+  repeat match type of H with (_ || _)%bool = false => apply orb_false_iff in H; destruct H as [? H] end.
+  unfold no_nan_values, not_nan.
+  repeat split; intro K; rewrite K in *; discriminate.
 Qed.
+
+(* full strength: for EVERY argument set (NaN values included) *)
+Lemma parsers_agree_l : forall g, py_decide g = c_decide g.
+Proof.
+  intros g. unfold py_decide, c_decide. destruct (any_nan g) eqn:A; [reflexivity|].
+  rewrite (flags_eq g (no_nan_of_any_nan g A)). apply agree_flags.
+Qed.
+
+Lemma nan_rejected : forall g, any_nan g = true -> c_decide g = Reject 16 /\ py_decide g = Reject 16.
+Proof. intros g H. unfold c_decide, py_decide. rewrite H. split; reflexivity. Qed.
 
 (* ---------------------------------------------------------------- witnesses *)
 Definition no_args : args :=
@@ -226,26 +239,30 @@ Lemma primary_pal_witness :
   no_nan_values w_primary_pal /\ py_decide w_primary_pal = Pal false /\ c_decide w_primary_pal = Pal false.
 Proof. repeat split; unfold no_nan_values, not_nan; repeat split; discriminate. Qed.
 
-(* x=NaN, a=1 : C ignores x and builds the orbit; Python rejects (cartesian + orbital) *)
+(* x=NaN, a=1 : before 369a765 C ignored x and built the orbit, Python rejected (cartesian + orbital) *)
 Definition w_nan_x : args :=
   mkArgs true false false Absent Absent GivenNaN Absent Absent Absent Absent Absent
          Given Absent Absent Absent Absent Absent Absent Absent Absent Absent Absent Absent Absent
          Absent Absent Absent Absent false.
-(* a=NaN, P=1 : C computes a from P; Python rejects (both a and P) *)
+(* a=NaN, P=1 : before 369a765 C computed a from P, Python rejected (both a and P) *)
 Definition w_nan_a : args :=
   mkArgs true false false Absent Absent Absent Absent Absent Absent Absent Absent
          GivenNaN Given Absent Absent Absent Absent Absent Absent Absent Absent Absent Absent Absent
          Absent Absent Absent Absent false.
 
 Lemma nan_witnesses :
-  c_decide w_nan_x = Classical false PeriDefault AnDefault /\ py_decide w_nan_x = Reject 8 /\
-  c_decide w_nan_a = Classical true PeriDefault AnDefault /\ py_decide w_nan_a = Reject 11.
+  c_decide w_nan_x = Reject 16 /\ py_decide w_nan_x = Reject 16 /\
+  c_decide w_nan_a = Reject 16 /\ py_decide w_nan_a = Reject 16.
 Proof. repeat split. Qed.
 
-(* m, r, hash never influence the decision *)
+(* hash never influences the decision; m and r only through being NaN *)
 Lemma decision_ignores_m_r_hash : forall s pr hs hs' m m' r r' x y z vx vy vz a P e inc Om om pom f M E l th T h k ix iy az,
+  is_nan_arg m = is_nan_arg m' -> is_nan_arg r = is_nan_arg r' ->
   c_decide (mkArgs s pr hs m r x y z vx vy vz a P e inc Om om pom f M E l th T h k ix iy az) =
   c_decide (mkArgs s pr hs' m' r' x y z vx vy vz a P e inc Om om pom f M E l th T h k ix iy az) /\
   py_decide (mkArgs s pr hs m r x y z vx vy vz a P e inc Om om pom f M E l th T h k ix iy az) =
   py_decide (mkArgs s pr hs' m' r' x y z vx vy vz a P e inc Om om pom f M E l th T h k ix iy az).
-Proof. intros. split; reflexivity. Qed.
+Proof.
+  intros. unfold c_decide, py_decide, any_nan. cbn [existsb a_m a_r a_x a_y a_z a_vx a_vy a_vz a_a a_P a_e a_inc a_Omega
+    a_omega a_pomega a_f a_M a_E a_l a_theta a_T a_h a_k a_ix a_iy]. rewrite H, H0. split; reflexivity.
+Qed.
